@@ -391,7 +391,7 @@ func init() {
 		}
 	}
 	const U = 32
-	fw.Register(addTok(tokFramesC16, &fw.Prop{
+	register(addTok(tokFramesC16, &fw.Prop{
 		ID: "C16",
 		Rule: "all strings of length <= L over {a,B,',',blank,é,ß} x all separators of length <= 2 for split (with length/upper/lower on all strings); the double sweep plus every k+{0,.25,.5,.75} for floor/ceil/round; " +
 			"40 objects with keys within {a,b,c} x all key lists of length <= 3 over {a,b,z} for pluck (result, original unchanged, sharing, freshness); all strings of length <= 4 over {0,1,5,.,e,-,+,x,blank} for num(); " +
